@@ -201,42 +201,46 @@ def data_region(tree, pidx, qidx):
 # ---------------------------------------------------------------------------
 # the oracle
 # ---------------------------------------------------------------------------
-def _arrays(args):
-    return {name: args[G.ARG_NAMES.index(name)] for name in G.ARRAYS}
-
-
-def _final(args):
-    return {name: [cell.v for cell in args[G.ARG_NAMES.index(name)].cells]
-            for name in G.ARRAYS}
+def _run(tree, inp, hooks, tracer=None):
+    """Run routine s with the given hooks.  The hooks are bound to the cells of
+    every array of the routine - dummy arguments and the local array - on
+    routine entry.  Returns ('ok', final arrays) | ('ub', message)."""
+    from mc import c12_oracle as O
+    from mc.fortsem import interp as I
+    from psyclone.psyir import nodes as N
+    routine = tree.walk(N.Routine)[0]
+    runner = O.RegionInterp(tree, routine, -1, -1, None, hooks=hooks)
+    runner.tracer = tracer
+    runner.on_entry = hooks.attach
+    try:
+        runner.run("s", G.make_args(inp))
+    except I.UB as err:
+        return ("ub", str(err))
+    except I.Unsupported as err:
+        raise RuntimeError(f"E1 cannot run the program: {err}")
+    return ("ok", {name: [cell.v for cell in hooks.arrays[name]]
+                   for name in G.ARRAYS})
 
 
 def run_needs(tree, inp):
     """One-store run with the device-access trace.  Returns (final arrays,
     NeedsTracer) or None if the program is inadmissible on this input."""
     from mc import c13_device as D
-    from mc.fortsem import equiv
-    args = G.make_args(inp)
-    needs = D.NeedsTracer(_arrays(args))
-    res = equiv.run(tree, "s", args, hooks=needs, tracer=needs.tracer)
-    if res[0] == "unsupported":
-        raise RuntimeError(f"E1 cannot run the program: {res[1]}")
+    needs = D.NeedsTracer(G.ARRAYS)
+    res = _run(tree, inp, needs, tracer=needs.tracer)
     if res[0] != "ok":
         return None
-    return _final(args), needs
+    return res[1], needs
 
 
 def run_two_store(tree, inp, clauses):
     """Returns ('ok', final arrays, faults) | ('ub', message)."""
     from mc import c13_device as D
-    from mc.fortsem import equiv
-    args = G.make_args(inp)
-    hooks = D.TwoStore(_arrays(args), clauses)
-    res = equiv.run(tree, "s", args, hooks=hooks)
-    if res[0] == "unsupported":
-        raise RuntimeError(f"E1 cannot run the two-store program: {res[1]}")
+    hooks = D.TwoStore(G.ARRAYS, clauses)
+    res = _run(tree, inp, hooks)
     if res[0] != "ok":
-        return ("ub", res[2])
-    return ("ok", _final(args), hooks.faults)
+        return res
+    return ("ok", res[1], hooks.faults)
 
 
 def compare(want, got):
